@@ -71,6 +71,7 @@ theorem table_compat : Compat T where
   rp0 := by decide
   rb0 := by decide
   comma0 := by decide
+  atom0 := fun a => by cases a <;> simp only [Atom.kind] <;> decide
   lpHigh := fun o => (table_open_high o (BinOp.mem_all o)).1
   lbHigh := fun o => (table_open_high o (BinOp.mem_all o)).2
   nudNum := by decide
@@ -106,6 +107,22 @@ theorem pratt_print_redundant (e : Expr) (ks : List TK) (hp : Prints e .top .non
     (ts : List LTok) (eofLine : Nat) (h : ts.map (·.tk) = ks) :
     Impl.parse T (program ts eofLine) = .ok e :=
   parse_prints table_compat (by decide) hp ts eofLine h
+
+/-- C03 (comma-less lists, forward direction): a list literal whose elements are literals or
+    identifiers written WITHOUT commas (`[1 2]`, `[a "x" true null]`) parses — on whatever lines
+    its tokens stand — to the list of these elements. More generally `Spec.PrintsItems.juxt` admits
+    a missing comma before every element that starts with a literal or an identifier, and
+    `pratt_print_redundant` / `parse_then_eval` / `prints_unambiguous` hold for all such writings.
+    (Before `(`, `[`, `not` the parser accepts a missing comma only after a line end; before
+    `-`/`+` it reads one element: those are not admitted, see `parse_sound` for the converse.) -/
+theorem commaless_atom_list_parses (as : List Atom) (ts : List LTok) (eofLine : Nat)
+    (h : ts.map (·.tk) = .lb :: (as.map TK.atom ++ [.rb])) :
+    Impl.parse T (program ts eofLine) = .ok (.list (atomItems as)) :=
+  pratt_print_redundant _ _ (Prints.list (atomItems_prints as)) ts eofLine h
+
+/-- non-vacuity: `[1 2 3]` with the tokens on three different lines -/
+example : Impl.parse T (program [⟨.lb, 1⟩, ⟨.atom n1, 1⟩, ⟨.atom n2, 2⟩, ⟨.atom n3, 3⟩, ⟨.rb, 3⟩] 4)
+    = .ok (.list (atomItems [n1, n2, n3])) := commaless_atom_list_parses [n1, n2, n3] _ 4 rfl
 
 /- Full statement (not provable in this file, which starts from tokens):
      for source texts s1 s2 that differ only in blanks / tabs / newlines between tokens and are one
